@@ -511,7 +511,8 @@ func (e *Engine) replay(o *Oblig, all []*FuncResult, dir string, cfg solveCfg) r
 	if spos > len(fr.Script) {
 		spos = len(fr.Script)
 	}
-	s.send(scriptHeader + e.prelude + fr.Script[:spos])
+	// (model-search prelude: definitions instead of trigger axioms, so the solver can answer "sat")
+	s.send(scriptHeader + e.modelPreludeFor(fr.Script+o.Guard+o.Goal) + fr.Script[:spos])
 	s.send("(push 1)")
 	popLevels := 1
 	s.send(fmt.Sprintf("(assert %s)\n(assert (not %s))", o.Guard, o.Goal))
